@@ -147,7 +147,7 @@ _BUILTINS = {
 def _lazy(v):
     """a lazily evaluated sequence of the interpreted program (generator expression, generator helper, or an iterator over one)"""
     import types as _types
-    return isinstance(v, (GenV, _types.GeneratorType, enumerate, zip)) or type(v).__name__ in ("list_iterator", "tuple_iterator", "islice", "chain")
+    return isinstance(v, (GenV, _types.GeneratorType, enumerate, zip, map, filter)) or type(v).__name__ in ("list_iterator", "tuple_iterator", "islice", "chain", "dropwhile", "takewhile")
 
 
 def _pure_callables():
@@ -1121,7 +1121,17 @@ class Interp:
                     else:
                         raise Raised("TypeError")
                 return NTV(ci, names, vals)
+        elif (isinstance(f, ast.Call) and isinstance(f.func, ast.Name) and f.func.id == "getattr" and len(f.args) == 2 and not f.keywords
+              and isinstance(self.eval(f.args[1], frame), str)):
+            # getattr(obj, <name known here>)(…) is obj.<name>(…): dispatch it exactly like the plain method call
+            syn = ast.Call(func=ast.Attribute(value=f.args[0], attr=self.eval(f.args[1], frame), ctx=ast.Load()), args=e.args, keywords=e.keywords)
+            ast.copy_location(syn, e)
+            ast.copy_location(syn.func, e)
+            return self.e_Call(syn, frame)
         else:
+            fv = self.eval(f, frame)
+            if isinstance(fv, (_Closure, _MethodRef)):
+                return fv(*self._pos_args(e, frame), **{k.arg: self.eval(k.value, frame) for k in e.keywords if k.arg})
             raise Undecidable(f"computed callee {full}")
         args = self._pos_args(e, frame)
         kwargs = {}
@@ -1287,6 +1297,14 @@ class Interp:
             sv = self.str_of(args[0])
             if not isinstance(sv, Obj):
                 return sv
+        if (ckey in ("dropwhile", "takewhile", "filter", "itertools.dropwhile", "itertools.takewhile", "map") and len(args) >= 2 and meth not in frame
+                and (recv is None or (isinstance(recv, Residual) and recv.text == "itertools")) and not any(isinstance(a, (Residual, Obj)) for a in args)):
+            import itertools as _it
+            pred = args[0]
+            if meth == "map":
+                return map(pred, *args[1:])
+            test = (lambda x: self.truth(x)) if pred is None else (lambda x: self.truth(pred(x)))   # the predicate's verdict is a truth test of the interpreted program
+            return {"dropwhile": _it.dropwhile, "takewhile": _it.takewhile, "filter": filter}[meth](test, args[1])
         if ckey in _PURE and (recv is None or (isinstance(recv, Residual) and recv.text in ("functools", "collections", "itertools"))) and meth not in frame:
             if not any(isinstance(a, (Residual, Obj)) for a in args):
                 try:
